@@ -16,6 +16,7 @@ import (
 	"sort"
 	"strings"
 	"sync"
+	"sync/atomic"
 	"testing"
 	"time"
 
@@ -152,10 +153,11 @@ func c17Run(t *testing.T, cfg c17Config) c17Result {
 		// ---------------- causes during the handshake: only Dial is blocked
 		if cause == "handshake-timeout" || cause == "dial-cancel" || cause == "close-during-dial" {
 			dctx, dcancel := context.WithCancel(ctx)
-			var tClosed time.Duration = -1
+			var tClosed atomic.Int64 // set by the closing goroutine, read after Dial returned
+			tClosed.Store(-1)
 			closeNow := func() {
 				d.Close()
-				tClosed = since()
+				tClosed.Store(int64(since()))
 			}
 			if cause == "close-during-dial" {
 				// the transport is shut down while Dial is in flight: from inside the application's
@@ -213,8 +215,8 @@ func c17Run(t *testing.T, cfg c17Config) c17Result {
 				if !errors.Is(err, quic.ErrTransportClosed) {
 					fail("dial-error", "Dial returned %v although the transport was closed while it was in flight, want ErrTransportClosed", err)
 				}
-				if tClosed >= 0 && since()-tClosed > 100*time.Millisecond {
-					fail("dial-slow", "Dial returned %v after Transport.Close had returned", since()-tClosed)
+				if tc := time.Duration(tClosed.Load()); tc >= 0 && since()-tc > 100*time.Millisecond {
+					fail("dial-slow", "Dial returned %v after Transport.Close had returned", since()-tc)
 				}
 			} else if cause == "dial-cancel" {
 				if !errors.Is(err, context.Canceled) {
